@@ -464,6 +464,45 @@ def check_copy(tail, op, off_kind, size, dst, dirty):
     return None, want
 
 
+def loop0_programs():
+    """code whose first byte is a JUMPDEST that is the head of a loop: the back edge is a taken jump to pc 0 (JUMP and JUMPI, concrete
+    and symbolic condition); control: the same loop with the head at pc 1.  The loop runs until MSIZE is non-zero (one iteration)."""
+    out = []
+    for pad in (0, 1):  # pad = 1: a leading JUMPDEST so that the head is at pc 1
+        for back in ("JUMP", "JUMPI", "JUMPI-sym"):
+            head = pad
+            # head: JUMPDEST ; MSIZE PUSH1 64 EQ ; PUSH1 exit ; JUMPI ; PUSH0 MSIZE MSTORE (memory grows by a word) ; <back edge to head> ;
+            # exit: JUMPDEST ; MSIZE PUSH0 MSTORE ; RETURN(0,32)      -- two iterations: returns 64
+            if back == "JUMP":
+                edge = [PUSH1, head, 0x56]
+            elif back == "JUMPI":
+                edge = [PUSH1, 1, PUSH1, head, 0x57]
+            else:
+                edge = [0x36, 0x15, PUSH1, head, 0x57]  # CALLDATASIZE ISZERO (true: empty calldata) ...
+            body = [JUMPDEST, 0x59, PUSH1, 64, 0x14, PUSH1, 0, 0x57, PUSH0, 0x59, 0x52] + edge
+            exit_pc = pad + len(body)
+            body[6] = exit_pc
+            tail = [JUMPDEST, 0x59, PUSH0, 0x52, PUSH1, 32, PUSH0, 0xF3]
+            out.append((f"loop0:pad={pad}:{back}", bytes([JUMPDEST] * pad + body + tail)))
+    return out
+
+
+def check_loop0(name, code):
+    from halmos.contract import Contract
+    from mc import refevm
+
+    res = run_code(Contract(code))
+    w = refevm.World()
+    w.code[0xAAAA] = code
+    w.storage[0xAAAA] = {}
+    w.transient[0xAAAA] = {}
+    ok, ret, err = refevm.transact(w, 0xAAAA, 0xBBBB, 0xBBBB, 0, b"")
+    want = (None if ok else err, ret.hex())
+    if len(res) != 1 or res[0] != want:
+        return f"halmos {res}, EVM {want}", want
+    return None, want
+
+
 def copy_cases(tier):
     tails = [[], [STOP], [PUSH1], [JUMPDEST, PUSH2, 0xA1], [PUSH32] + [0xA2] * 7]
     for tail in tails:
@@ -546,6 +585,13 @@ def run_shard(shard):
             if bad:
                 acc.violation(f"copy:{bytes(tail).hex()}:{op}:{off_kind}:{size}:{dst}:{int(dirty)}", f"{op}(dst={dst}, off={off_kind}, size={size}) with data tail {bytes(tail).hex()}, memory {'dirty' if dirty else 'fresh'}: {bad}",
                               {"kind": "copy", "tail": tail, "op": op, "off": off_kind, "size": size, "dst": dst, "dirty": dirty})
+        if shard["i"] == 0:
+            for name, code in loop0_programs():
+                acc.count("copy_programs")
+                bad, want = check_loop0(name, code)
+                acc.outcome(("loop0", want[1][-4:]))
+                if bad:
+                    acc.violation(name, f"{name} code={code.hex()}: {bad}", {"kind": "loop0", "name": name})
         acc.sample({"copy_program": "dirty memory; CODECOPY(dst, codesize-1, 33); MSIZE; CODESIZE; RETURN(0,160)", "offsets": ["0", "end-2", "end-1", "end", "end+1", "2^200+5"], "sizes": list(COPY_SIZES)})
     else:
         a = shard["first"]
@@ -592,6 +638,10 @@ def replay(case):
         bad = check_contract(case["bs"], case["i"], case["j"], case["rep"])
         return {"violated": bool(bad), "obs": bad[:10],
                 "key": f"{bad[0][0]}:{bytes(case['bs']).hex()}:{case['i']}-{case['j']}:{case['rep']}" if bad else ""}
+    if case["kind"] == "loop0":
+        code = dict(loop0_programs())[case["name"]]
+        bad, want = check_loop0(case["name"], code)
+        return {"violated": bool(bad), "obs": [bad], "key": case["name"] if bad else ""}
     if case["kind"] == "copy":
         bad, want = check_copy(case["tail"], case["op"], case["off"], case["size"], case["dst"], case["dirty"])
         return {"violated": bool(bad), "obs": [bad], "key": f"copy:{bytes(case['tail']).hex()}:{case['op']}:{case['off']}:{case['size']}:{case['dst']}:{int(case['dirty'])}" if bad else ""}
